@@ -582,7 +582,7 @@ func init() {
 	reg(&propDef{id: "C11", level: "exploration", crashIsViol: false, stuckIsViol: true,
 		batches: []batch{{name: "flowfaults", quick: 2600, thorough: 60000},
 			{name: "enumerated", quick: 3, thorough: 80, enumKinds: 13, enumPos: 1, enumBases: 80},
-			{name: "slowdisk", params: map[string]string{"slowdisk": "1"}, quick: 32, thorough: 600},
+			{name: "slowdisk", params: map[string]string{"slowdisk": "1"}, quick: 32, thorough: 600, chunk: 4},
 			{name: "resumefail", params: map[string]string{"resume": "1"}, quick: 500, thorough: 15000}},
 		rule:    "batch resumefail: transfers that resume over an older destination (-y, protocol 3/4) in which a local failure strikes - the source is cut right when its name goes out (before or during the prefix-hash exchange), a source read fails, a destination write fails - half of them under -t 0 (never time out): both sides still end, within the bound, with an error told to the peer and no worker left. Other batches: each evaluation is one simulated transfer in which, after the ACT has been written towards the server, one fault is injected at a tape-chosen message: a direction (or both) goes silent, a link closes or starts failing writes, a destination write fails (optionally after a short write), a source read fails, the source file shrinks under the reader, or one process is stalled for T/2, 1.5T or 3T; non-trivial = the fault fired and termination, reports, fail lines and the goroutine-leak monitor were all evaluated; distinct = distinct (configuration + fault kind + hop, schedule-trace hash, tape hash)"})
 	reg(&propDef{id: "C09", level: "exploration", crashIsViol: false,
@@ -595,7 +595,7 @@ func init() {
 			{name: "resume", params: map[string]string{"resume": "1"}, quick: 800, thorough: 30000},
 			{name: "archive", params: map[string]string{"mode": "archive"}, quick: 1500, thorough: 60000},
 			{name: "terminal", params: map[string]string{"mode": "terminal"}, quick: 1200, thorough: 40000}},
-		rule:    "each evaluation is one simulated transfer in which a link rewriter replaces the payload of 1-3 tape-chosen protocol lines sent to the attacked role (server or client) by boundary values: numbers (-1, 0, +-1 of the expected, 2^31, 2^62, 2^63-1, non-numeric, oversized), broken base64/zlib, truncated or wrongly typed JSON, hostile known fields; with and without a progress display, terminal widths 6-80; oracles: no panic/fatal error in any goroutine (a crash of the worker process is attributed to the run and re-executed), allocation during the run <= 64 MiB + 16 x bytes moved, both roles end, no percentage outside 0..100 on the terminal, and a transparency probe in both directions passes afterwards; batch archive: hostile archive entry headers written to the real archive writer in tape-chosen segments; batch terminal: hostile terminal output in front of the idle client with the read boundary at tape-chosen or at every position; non-trivial = an edit fired (a hostile entry / read was fed) and all oracles ran; distinct = distinct (configuration + attacked role, schedule-trace hash, tape hash)"})
+		rule:    "each evaluation is one simulated transfer in which a link rewriter replaces the payload of 1-3 tape-chosen protocol lines sent to the attacked role (server or client) by boundary values: numbers (-1, 0, +-1 of the expected, 2^31, 2^62, 2^63-1, non-numeric, oversized), broken base64/zlib, truncated or wrongly typed JSON, hostile known fields; with and without a progress display, terminal widths 6-80; oracles: no panic/fatal error in any goroutine (a crash of the worker process is attributed to the run and re-executed), allocation during the run <= 64 MiB + 16 x bytes moved, both roles end, no percentage outside 0..100 on the terminal, and a transparency probe in both directions passes afterwards; raw binary blocks ending in the escape leader under every protocol version, and a terminal width that was never told with a hostile pane width; batch archive: hostile archive entry headers written to the real archive writer in tape-chosen segments; batch terminal: hostile terminal output in front of the idle client with the read boundary at tape-chosen or at every position; non-trivial = an edit fired (a hostile entry / read was fed) and all oracles ran; distinct = distinct (configuration + attacked role, schedule-trace hash, tape hash)"})
 	reg(&propDef{id: "C10", level: "exploration", crashIsViol: false, stuckIsViol: true,
 		batches: []batch{{name: "stops", quick: 2400, thorough: 60000},
 			{name: "enumerated", quick: 4, thorough: 120, enumKinds: 6, enumPos: 1, enumBases: 120}},
@@ -609,7 +609,7 @@ func init() {
 		rule:    "each evaluation is one simulated transfer with the tunnel offered (real listener code on an in-memory network with per-host ports, real client connector path, optionally one relay with its own tunnel hop) while 0-3 attacker tasks connect to the server's or the relay's port at tape-chosen times with: unrelated text, the greeting for another id, a truncated greeting, the greeting plus one byte, the greeting split across two writes, nothing, a flood of protocol-looking lines, or the right greeting after the genuine connection is in place - and keep writing fail lines afterwards; the client's connector succeeds, refuses, returns late (1.1-3.1 s), returns a dead connection, or the server cannot listen; once the tunnel carries traffic, fail lines are injected in-band in both directions; oracles: the transfer succeeds with identical files (C01 oracle) in every case, a connection that did not present the greeting receives nothing and is closed, a second correct greeting gets no transfer traffic, no more connections carry protocol traffic than there are tunnel hops; non-trivial = oracles evaluated; distinct = distinct (configuration + connector outcome + attacker kinds, schedule-trace hash, tape hash)"})
 	reg(&propDef{id: "C19", level: "exploration", crashIsViol: true,
 		batches: []batch{{name: "zmodem", quick: 2000, thorough: 80000}},
-		rule:    "each evaluation is one real filter with zmodem enabled, a scripted remote rz/sz (start header within one read, optionally accompanied by a cancel sequence or 'cannot open'; then finishes, cancels early or late, keeps sending, or goes quiet) and a scripted local helper behind the os/exec substitute (normal, exits non-zero, exits at once, never writes, writes late, missing from PATH), upload with and without files to send, download, optional Ctrl-C early or late; all timers (100 ms start delay, 500 ms quiet timer, 20 s timeouts) run on the fake clock; oracles: matching helper and directory, started at most once, traffic bridged both ways in clean sessions, server told to cancel whenever the session did not complete, a silent helper cancelled or killed, vetoed headers start nothing and are shown, and after 26 s typed input reaches the server and a printed probe reaches the terminal; non-trivial = all of that evaluated; distinct = distinct (case class, schedule-trace hash, tape hash)"})
+		rule:    "each evaluation is one real filter with zmodem enabled, a scripted remote rz/sz (start header within one read, optionally accompanied by a cancel sequence or 'cannot open'; then finishes, cancels early or late, keeps sending, or goes quiet) and a scripted local helper behind the os/exec substitute (normal, exits non-zero, exits at once, never writes, writes late, missing from PATH), upload with and without files to send, download, optional Ctrl-C early or late; all timers (100 ms start delay, 500 ms quiet timer, 20 s timeouts) run on the fake clock; oracles: after a Ctrl-C within the first 120 ms the server is told within a second, matching helper and directory, started at most once, traffic bridged both ways in clean sessions, server told to cancel whenever the session did not complete, a silent helper cancelled or killed, vetoed headers start nothing and are shown, and after 26 s typed input reaches the server and a printed probe reaches the terminal; non-trivial = all of that evaluated; distinct = distinct (case class, schedule-trace hash, tape hash)"})
 	reg(&propDef{id: "C18", level: "exploration", crashIsViol: false, stuckIsViol: true,
 		batches: []batch{{name: "pauses", quick: 2400, thorough: 60000},
 			{name: "pauseread", params: map[string]string{"pauseread": "1"}, quick: 1500, thorough: 40000},
@@ -626,7 +626,7 @@ func init() {
 	reg(&propDef{id: "C04", level: "exploration", crashIsViol: true,
 		batches: []batch{{name: "builtin", params: map[string]string{"mode": "builtin"}, quick: 1500, thorough: 60000},
 			{name: "custom", params: map[string]string{"mode": "custom"}, quick: 1500, thorough: 60000}},
-		rule: "each evaluation is one simulated binary-mode transfer (-b, -b -e; protocols 1-4; buffer sizes 1K-1M; compression on/off/auto; bandwidth shaping so that chunk boundaries move; any segmentation incl. between leader and code) of content rich in protected bytes and leader bytes; batch builtin uses the real trz/tsz with their two tables, batch custom an in-package server running the real handshake/config/receive code with a tape-generated well-formed table (2-32 entries); in 20% of runs one escape pair on the wire is replaced by an undefined one; oracles: files identical after success (both directions), every byte the uploading client wrote between ACT and EXIT is outside the protected set announced in the CFG and every leader is followed by a defined code, an undefined pair ends the transfer with an error on both sides; non-trivial = binary mode negotiated and oracles evaluated; distinct = distinct (mode + configuration, schedule-trace hash, tape hash)"})
+		rule: "each evaluation is one simulated binary-mode transfer (-b, -b -e; protocols 1-4; buffer sizes 1K-1M; compression on/off/auto; bandwidth shaping so that chunk boundaries move; any segmentation incl. between leader and code) of content rich in protected bytes and leader bytes; batch builtin uses the real trz/tsz with their two tables, batch custom an in-package server running the real handshake/config/receive code with a tape-generated well-formed table (2-32 entries); in 20% of runs one escape pair on the wire is replaced by an undefined one; oracles: files identical after success (both directions), every byte the uploading client wrote between ACT and EXIT is outside the protected set announced in the CFG and every leader is followed by a defined code, an undefined pair ends the transfer with an error on both sides, with protocol <= 2 the binary payload on the wire, escapes undone, equals the file(s) (no compression in those versions); non-trivial = binary mode negotiated and oracles evaluated; distinct = distinct (mode + configuration, schedule-trace hash, tape hash)"})
 	reg(&propDef{id: "C05", level: "exploration", crashIsViol: true,
 		batches: []batch{{name: "transparency", quick: 2000, thorough: 80000}},
 		rule:    "each evaluation is one real filter (option sets drag x tracelog x zmodem x OSC52) after a history of 0-3 real transfers (ended by success, user stop through the prompt, or SIGINT at the server), fed 3-14 probe chunks in both directions: random binary, VT100 sequences, truncated/corrupted trigger look-alikes, zmodem-like and OSC52-like fragments (including vetoed zmodem headers and genuine OSC52), scroll-back of finished transfers, control keys, path-like input naming files that do not exist, existing paths not in the dragged-path shape, bracketed paste; any segmentation and coalescing; oracle: bytes at the terminal == bytes the shell wrote and bytes at the server side == bytes typed, exactly, and no transfer starts; non-trivial = probe bytes compared; distinct = distinct (options + history + probe kinds, schedule-trace hash, tape hash)"})
